@@ -65,6 +65,14 @@ PLAN = {
         note="assumes t+d representable in u64 and shift <= 2^33; period 0 is outside the quantifier (division by zero, noted as D19). The u32 range checks, "
              "the register write order / activation flags and the 'only DC devices that asked for it' filter live in the surrounding async fns and are NOT decided",
     ),
+    "C19": dict(
+        verus=[], kani=["@wire"], level="translation_validation",
+        claim="every #[derive(EtherCrabWire*)] type in /repo/src: the derive OUTPUT (the code that runs) is validated against a layout computed "
+              "independently from the #[wire] attributes, for all byte strings and all field values (Kani, loop-free, complete per type): field bit positions, "
+              "zero undeclared bits, unpack(pack(x)) round trip, short buffers are errors, enum fallbacks as declared",
+        note="the proc-macro program itself is not verified (its output is, per instance); generic types and write-only derives are skipped and listed; "
+             "the 'programs' quantifier is sampled by the in-repo types only (generated-layout corpus not built yet); ethercrab-wire/src/impls.rs not yet under contract",
+    ),
     "C17": dict(
         verus=[], kani=["ports", "dc"], level="proof",
         claim="4-port functions of Ports proved against closed-form specs for all 16 activity patterns x all u32 times x all downstream assignments "
